@@ -141,8 +141,16 @@ func (w *world) advance(f *flight, start func()) (res, errText string) {
 func (w *world) begin(pos int, st map[string]interface{}) (*flight, string, string) {
 	id := fmt.Sprintf("t%02d", pos)
 	req := w.createReq(st, id)
+	faults := []int{hx.I(st, "fault")}
+	if more, ok := st["faults"].([]interface{}); ok { // directed plans: several store calls of the request fail
+		for _, x := range more {
+			if k, ok := x.(float64); ok {
+				faults = append(faults, int(k))
+			}
+		}
+	}
 	f := &flight{pos: pos, id: id, st: st, done: make(chan error, 1), active: true,
-		gr: w.gate.NewReq(id, []int{1, 4}, []int{hx.I(st, "fault")})}
+		gr: w.gate.NewReq(id, []int{1, 4}, faults)}
 	w.reqs[pos] = f
 	res, txt := w.advance(f, func() {
 		go func() {
@@ -307,37 +315,52 @@ func run(p *hx.Plan) []hx.Event {
 			w.env.FailEntity(1)
 		}
 		builds := w.env.EntityBuilds()
-		switch op {
-		case "create":
-			id := fmt.Sprintf("t%02d", pos)
-			req := w.createReq(st, id)
-			resp, err := w.env.CDC.Create(req)
-			ev["db"], ev["coll"], ev["via"], ev["map"], ev["ur"], ev["tgt"] = hx.S(st, "db"), hx.S(st, "coll"), hx.S(st, "via"), hx.S(st, "map"), hx.B(st, "ur"), hx.S(st, "tgt")
-			ev["id"] = id
-			ev["res"] = classify(err)
-			ev["err"] = ""
-			if err != nil {
-				ev["err"] = err.Error()
-			} else if resp.TaskID != id {
-				ev["res"] = "server"
-				ev["err"] = "create returned another task id: " + resp.TaskID
+		call := func() {
+			switch op {
+			case "create":
+				id := fmt.Sprintf("t%02d", pos)
+				req := w.createReq(st, id)
+				resp, err := w.env.CDC.Create(req)
+				ev["db"], ev["coll"], ev["via"], ev["map"], ev["ur"], ev["tgt"] = hx.S(st, "db"), hx.S(st, "coll"), hx.S(st, "via"), hx.S(st, "map"), hx.B(st, "ur"), hx.S(st, "tgt")
+				ev["id"] = id
+				ev["res"] = classify(err)
+				ev["err"] = ""
+				if err != nil {
+					ev["err"] = err.Error()
+				} else if resp.TaskID != id {
+					ev["res"] = "server"
+					ev["err"] = "create returned another task id: " + resp.TaskID
+				}
+			case "delete":
+				id := fmt.Sprintf("t%02d", hx.I(st, "task"))
+				_, err := w.env.CDC.Delete(&request.DeleteRequest{TaskID: id})
+				ev["id"] = id
+				ev["res"] = classify(err)
+				ev["err"] = ""
+				if err != nil {
+					ev["err"] = err.Error()
+				}
+			case "restart":
+				w.env.RestartOn(w.gate)
+				ev["res"] = "ok"
+				ev["err"] = ""
+				ev["id"] = ""
+			default:
+				panic("unknown op " + op)
 			}
-		case "delete":
-			id := fmt.Sprintf("t%02d", hx.I(st, "task"))
-			_, err := w.env.CDC.Delete(&request.DeleteRequest{TaskID: id})
-			ev["id"] = id
-			ev["res"] = classify(err)
-			ev["err"] = ""
-			if err != nil {
-				ev["err"] = err.Error()
+		}
+		if len(w.inFlight()) == 0 {
+			call()
+		} else {
+			// a request runs while another one is held inside a store call: if it cannot finish (the code keeps a lock
+			// across its store calls, which the statement does not forbid) the schedule is not feasible - machinery, not a verdict
+			fin := make(chan struct{})
+			go func() { call(); close(fin) }()
+			select {
+			case <-fin:
+			case <-time.After(gateWait):
+				return append(evs, hx.Event{"op": "machinery", "i": i + 1, "id": "", "err": "the request did not return while another create is held inside a store call"})
 			}
-		case "restart":
-			w.env.RestartOn(w.gate)
-			ev["res"] = "ok"
-			ev["err"] = ""
-			ev["id"] = ""
-		default:
-			panic("unknown op " + op)
 		}
 		ev["fault"] = fault
 		ev["fault_hit"] = w.env.Store.Hits() > 0 || (fault == 99 && w.env.EntityBuilds() > builds)
